@@ -1,36 +1,6 @@
 //! Worker process: runs one shard of a workload under the monitors and prints JSON lines.
-//!   {"t":"viol", ...}   one per distinct signature (first witness, replayable history)
+//!   {"t":"viol", ...}   one per distinct signature (first witness, replayable)
 //!   {"t":"stats", ...}  once at the end
-use pqverif::types::*;
-use pqverif::*;
-use std::collections::BTreeMap;
-use std::io::Write;
-
 fn main() {
-    let args: Vec<String> = std::env::args().skip(1).collect();
-    if args.is_empty() {
-        eprintln!("usage: worker <mode> key=value ...");
-        std::process::exit(2);
-    }
-    let mode = args[0].clone();
-    let mut kv: BTreeMap<String, String> = BTreeMap::new();
-    for a in &args[1..] {
-        if let Some((k, v)) = a.split_once('=') {
-            kv.insert(k.to_string(), v.to_string());
-        }
-    }
-    install_panic_hook();
-    let a = cli::Args { kv };
-    let code = match mode.as_str() {
-        "hist" => cli::mode_hist(&a),
-        "replay" => cli::mode_replay(&a),
-        "bfs" => bfs::mode_bfs(&a),
-        "iters" => iters::mode_iters(&a),
-        other => {
-            eprintln!("unknown mode {}", other);
-            2
-        }
-    };
-    std::io::stdout().flush().ok();
-    std::process::exit(code);
+    pqverif::worker_main();
 }
